@@ -127,6 +127,12 @@ def run(tier):
                                                               'settings': c['settings'], 'semantics': kind, 'label': c['label']},
                                   'expected': so, 'observed': o, 'why': why, 'spec': 'PegSem!Body (IsKeyword before Act)'},
                                  key=c['ebnf'] + c['backend'] + kind + why[:12] + str(c['settings']))
+    # history counters on the machine (spec/PegMachineObs.tla): the step that rejects a keyword calls no action and leaves a failure in
+    # the memo table (KeywordBeforeAction), under every memo schedule, with memoization on and off
+    from ..pegcheck import observer_check
+    obs_items = [{'g': it['g'], 'texts': it['texts'], 'cfg': {'ignorecase': it['ic'] in ('directive', 'setting'), 'keywords': it['kws']}}
+                 for it in items if it['ic'] in ('off', 'directive') and not it.get('quoted')]
+    observer_check(ck, obs_items[ck.seed % 6::6] if tier == 'quick' else obs_items, 'C11 keywords', maxlen=3, maxtexts=40)
     ck.cov['distinct_nontrivial'] = len(seen)
     ck.cov['exhaustive'] = True
     ck.cov['rule'] = (f'{len(items)} keyword grammars (8 shapes: closure, keyword before/after the name alternative, lookaheads, named, '
